@@ -17,9 +17,10 @@ func init() {
 		r.floor("R4", 1)
 	}, checkC10)
 	register("C13", func(r *Report) {
-		r.Explanation = "Decides the no-leak / join / close structure for every termination cause: (R1) the session function joins its goroutines: every return reachable after the first goroutine was spawned passes the group's Wait, and a cancel of a context the group derives from is deferred before the first spawn; (R2) cancellation discipline: every blocking select and bare channel receive in package gateway and util.ConnWithContext has a case on a context's or transaction's Done(), every such context derives from the session/function context (never from context.Background() inside a session goroutine), ConnWithContext.Read/Write re-check the context in every retry iteration (no cycle avoids the check) and set the deadline before each attempt; (R3) the receive loops return the error of ReadPacket and of the dispatcher (context.Canceled -> nil; io.EOF -> sentinel/ErrMqttConnClosed): no path from a failed read or dispatch back to the loop head; (R4) the shutdown goroutine sends DISCONNECT exactly when the state is Active or Awake, and the plain-DISCONNECT path sets Disconnected before returning the clean-shutdown sentinel (so no second DISCONNECT); (R5) the broker connection is closed on every exit after the dial (C10-R4). Not decided: the numeric bound; OS-level blocking inside net.Conn."
+		r.Explanation = "Decides the no-leak / join / close structure for every termination cause: (R1) the session function joins its goroutines: every return reachable after the first goroutine was spawned passes the group's Wait, and a cancel of a context the group derives from is deferred before the first spawn; (R2) cancellation discipline: every blocking select and bare channel receive in package gateway and util.ConnWithContext has a case on a context's or transaction's Done(), every such context derives from the session/function context (never from context.Background() inside a session goroutine), ConnWithContext.Read/Write re-check the context in every retry iteration (no cycle avoids the check) and set the deadline before each attempt; (R3) the receive loops return the error of ReadPacket and of the dispatcher (context.Canceled -> nil; io.EOF -> sentinel/ErrMqttConnClosed): no path from a failed read or dispatch back to the loop head; (R4) the shutdown goroutine sends DISCONNECT exactly when the state is Active or Awake, and the plain-DISCONNECT path sets Disconnected before returning the clean-shutdown sentinel (so no second DISCONNECT); (R5) the broker connection is closed on every exit after the dial (C10-R4); (R6) the context of the client connection's wrapper is rooted at context.Background() and cancelled only after the shutdown goroutine's last send, so the DISCONNECT sent on session end is really written. Not decided: the numeric bound; OS-level blocking inside net.Conn."
 		r.floor("R1", 1)
 		r.floor("R2", 5)
+		r.floor("R6", 1)
 		r.floor("R3", 2)
 		r.floor("R4", 4)
 	}, checkC13)
@@ -582,6 +583,152 @@ func checkC13(c *Ctx, r *Report) {
 		}
 	}
 	c.checkBrokerConnClosed(r, "R5")
+	c.checkSnConnContext(r, run)
+}
+
+// checkSnConnContext: R6 of C13. The shutdown goroutine sends the DISCONNECT
+// after the session context was cancelled, through the connection wrapper
+// whose Write refuses to write once *its* context is cancelled. So the context
+// given to the wrapper of the client's connection (the net.Conn the session
+// function received) must not derive from the session function's context
+// parameter (which is a parent of the group context): it must be rooted at
+// context.Background(), and its cancel function may only be called after the
+// last send in the shutdown goroutine, or deferred.
+func (c *Ctx) checkSnConnContext(r *Report, run *ssa.Function) {
+	var connParam *ssa.Parameter
+	for _, p := range run.Params {
+		if typeIs(p.Type(), "net", "Conn") {
+			connParam = p
+		}
+	}
+	n := 0
+	allInstrs(run, func(i ssa.Instruction) {
+		call, ok := i.(*ssa.Call)
+		if !ok || calleeName(&call.Call) != pkUtil+".NewConnWithContext" || len(call.Call.Args) < 2 {
+			return
+		}
+		if connParam == nil || !flowsTo(connParam, call.Call.Args[1]) {
+			return
+		}
+		n++
+		key := fnKey(run) + ":client-connection-context"
+		root := c.ctxRoot(call.Call.Args[0], 0)
+		if root != "background" {
+			r.bad("R6", key, c.instrPos(i), "the context of the client connection's wrapper is rooted at '"+root+"', not at context.Background(): it is cancelled together with (or before) the session context, so the DISCONNECT the shutdown goroutine sends on session end is refused by ConnWithContext.Write and never reaches an active/awake client")
+			return
+		}
+		// the cancel function of that context: every call is in a closure after its last sender call, or deferred
+		bad := ""
+		ctxVal := call.Call.Args[0]
+		if u, ok := ctxVal.(*ssa.UnOp); ok && u.Op == token.MUL {
+			if a, ok := u.X.(*ssa.Alloc); ok && a.Referrers() != nil {
+				for _, rf := range *a.Referrers() {
+					if st, ok := rf.(*ssa.Store); ok && st.Addr == ssa.Value(a) {
+						ctxVal = st.Val
+					}
+				}
+			}
+		}
+		if ex, ok := ctxVal.(*ssa.Extract); !ok {
+			bad = "cannot find the WithCancel call that created the connection context"
+		} else {
+			if refs := ex.Tuple.Referrers(); refs != nil {
+				for _, rf := range *refs {
+					e2, ok := rf.(*ssa.Extract)
+					if !ok || e2.Index != 1 {
+						continue
+					}
+					c.cancelUses(e2, run, func(site ssa.Instruction, deferred bool) {
+						if deferred {
+							return
+						}
+						f := site.Parent()
+						senders := c.snSenders("gateway")
+						// no sender call reachable after the cancel call in f
+						if found, at := pathExists(f, site, func(j ssa.Instruction) bool {
+							ci, ok := j.(ssa.CallInstruction)
+							if !ok || j == site {
+								return false
+							}
+							g := staticCallee(ci.Common())
+							return g != nil && senders[g]
+						}, nil); found {
+							bad = "the connection context is cancelled at " + c.instrPos(site) + " before a packet is sent at " + c.instrPos(at)
+						}
+						if f == run && !deferred {
+							bad = "the connection context is cancelled in the session function itself (" + c.instrPos(site) + "), not after the shutdown DISCONNECT"
+						}
+					})
+				}
+			}
+		}
+		if bad != "" {
+			r.bad("R6", key, c.instrPos(i), bad)
+		} else {
+			r.ok("R6", key, c.instrPos(i), "rooted at context.Background(); cancelled only after the shutdown goroutine's last send (or deferred)")
+		}
+	})
+	if n == 0 {
+		r.undecided("R6", fnKey(run)+":client-connection-context", c.pos(run.Pos()), "no NewConnWithContext call wrapping the session function's net.Conn parameter found")
+	}
+}
+
+// cancelUses reports every call (or defer) of the function value v, following
+// captures into closures of f.
+func (c *Ctx) cancelUses(v ssa.Value, f *ssa.Function, fn func(site ssa.Instruction, deferred bool)) {
+	var visit func(v ssa.Value, depth int)
+	visit = func(v ssa.Value, depth int) {
+		if depth > 4 || v.Referrers() == nil {
+			return
+		}
+		for _, rf := range *v.Referrers() {
+			switch x := rf.(type) {
+			case *ssa.Call:
+				if x.Call.Value == v {
+					fn(x, false)
+				}
+			case *ssa.Defer:
+				if x.Call.Value == v {
+					fn(x, true)
+				}
+			case *ssa.Go:
+				if x.Call.Value == v {
+					fn(x, false)
+				}
+			case *ssa.Store:
+				if x.Val == v {
+					if a, ok := x.Addr.(*ssa.Alloc); ok && a.Referrers() != nil {
+						for _, r2 := range *a.Referrers() {
+							switch y := r2.(type) {
+							case *ssa.UnOp:
+								visit(y, depth+1)
+							case *ssa.MakeClosure:
+								for bi, b := range y.Bindings {
+									if b == ssa.Value(a) {
+										fv := y.Fn.(*ssa.Function).FreeVars[bi]
+										if fv.Referrers() != nil {
+											for _, r3 := range *fv.Referrers() {
+												if u, ok := r3.(*ssa.UnOp); ok {
+													visit(u, depth+1)
+												}
+											}
+										}
+									}
+								}
+							}
+						}
+					}
+				}
+			case *ssa.MakeClosure:
+				for bi, b := range x.Bindings {
+					if b == v {
+						visit(x.Fn.(*ssa.Function).FreeVars[bi], depth+1)
+					}
+				}
+			}
+		}
+	}
+	visit(v, 0)
 }
 
 // checkCancellation: R2 of C13 (also used for the client in C28).
@@ -597,6 +744,7 @@ func (c *Ctx) checkCancellation(r *Report, rels []string) {
 					r.fn(f)
 					key := fmt.Sprintf("%s:select#%d", fnKey(f), selectOrdinal(f, x))
 					hasDone := false
+					hasCtx := false
 					roots := []string{}
 					for _, s := range x.States {
 						if s.Dir != types.RecvOnly {
@@ -604,11 +752,17 @@ func (c *Ctx) checkCancellation(r *Report, rels []string) {
 						}
 						if c.isContextDone(s.Chan) {
 							hasDone = true
+							hasCtx = true
 							call := s.Chan.(*ssa.Call)
 							roots = append(roots, c.ctxRoot(call.Call.Value, 0))
 						} else if isDoneChan(s.Chan) {
 							hasDone = true
-							roots = append(roots, "transaction")
+							if c.doneClosedOnCancel(s.Chan) {
+								hasCtx = true
+								roots = append(roots, "transaction(completes on cancellation)")
+							} else {
+								roots = append(roots, "transaction")
+							}
 						}
 					}
 					if !x.Blocking {
@@ -627,6 +781,8 @@ func (c *Ctx) checkCancellation(r *Report, rels []string) {
 					switch {
 					case !hasDone:
 						r.bad("R2", key, c.instrPos(i), "blocking select without a Done() case: the goroutine cannot be cancelled")
+					case !hasCtx:
+						r.bad("R2", key, c.instrPos(i), "the only Done() case of this blocking select is a transaction's, and cancelling the session context does not complete a transaction (it only stops its timer): the goroutine waits forever when the session ends while the exchange is pending")
 					case bg && allRootsBackground(roots):
 						r.bad("R2", key, c.instrPos(i), "the only cancellation case of this blocking select is a context derived from context.Background(), not from the session: the goroutine outlives the session until its own timeout ("+strings.Join(roots, ",")+")")
 					default:
@@ -638,7 +794,9 @@ func (c *Ctx) checkCancellation(r *Report, rels []string) {
 					}
 					r.fn(f)
 					key := fmt.Sprintf("%s:recv(%s)", fnKey(f), exprStr(x.X))
-					if c.isContextDone(x.X) || isDoneChan(x.X) {
+					if isDoneChan(x.X) && !c.isContextDone(x.X) && !c.doneClosedOnCancel(x.X) {
+						r.bad("R2", key, c.instrPos(i), "bare blocking receive on a transaction's Done(): cancelling the session context does not complete a transaction (it only stops its timer), so this wait never ends when the session is terminated while the exchange is pending")
+					} else if c.isContextDone(x.X) || isDoneChan(x.X) {
 						rt := "transaction"
 						if call, ok := x.X.(*ssa.Call); ok && c.isContextDone(x.X) {
 							rt = c.ctxRoot(call.Call.Value, 0)
@@ -870,4 +1028,114 @@ func (c *Ctx) checkReceiveLoops(r *Report, rel string) {
 	if n == 0 {
 		r.undecided("R3", rel+":receive-loops", "-", "no loop around ReadPacket found")
 	}
+}
+
+// doneClosedOnCancel: v is the Done() channel of a transaction whose type is
+// completed (Done closed) when the context given to its constructor is
+// cancelled. Decided from the constructors of package transactions: the
+// goroutine they spawn must, on its ctx.Done() case, reach a call that closes
+// the done channel (Fail/Success/finish). Today no transaction type does: the
+// cancellation case only stops the timer.
+func (c *Ctx) doneClosedOnCancel(v ssa.Value) bool {
+	// the static type the Done() method is called on
+	var recv types.Type
+	switch x := v.(type) {
+	case *ssa.Call:
+		if x.Call.IsInvoke() {
+			recv = x.Call.Value.Type()
+		} else if len(x.Call.Args) > 0 {
+			recv = x.Call.Args[0].Type()
+		}
+	case *ssa.ChangeType:
+		return c.doneClosedOnCancel(x.X)
+	}
+	if recv == nil {
+		return false
+	}
+	okAny, all := false, true
+	for _, f := range c.repoFuncs("transactions") {
+		if f.Parent() != nil || f.Signature.Recv() != nil || !strings.HasPrefix(f.Name(), "New") || f.Signature.Results().Len() != 1 {
+			continue
+		}
+		rt := f.Signature.Results().At(0).Type()
+		if !(types.Identical(rt, recv) || c.embeds(recv, rt)) {
+			continue
+		}
+		// does a goroutine spawned by the constructor complete the transaction on ctx.Done()?
+		completes := false
+		for _, cl := range closuresIn(f) {
+			allInstrs(cl, func(i ssa.Instruction) {
+				sel, ok := i.(*ssa.Select)
+				if !ok {
+					return
+				}
+				for idx, st := range sel.States {
+					if !c.isContextDone(st.Chan) {
+						continue
+					}
+					// blocks reached when this case was chosen: follow the index comparison
+					for _, b := range selectCaseBlocks(sel, idx) {
+						seen := map[*ssa.BasicBlock]bool{}
+						var walk func(b *ssa.BasicBlock)
+						walk = func(b *ssa.BasicBlock) {
+							if seen[b] {
+								return
+							}
+							seen[b] = true
+							for _, j := range b.Instrs {
+								if ci, ok := j.(ssa.CallInstruction); ok {
+									n := calleeName(ci.Common())
+									if strings.HasSuffix(n, ".Fail") || strings.HasSuffix(n, ".Success") || strings.HasSuffix(n, ".finish") || strings.HasSuffix(n, ".fail") {
+										completes = true
+									}
+								}
+							}
+							for _, s := range b.Succs {
+								walk(s)
+							}
+						}
+						walk(b)
+					}
+				}
+			})
+		}
+		if completes {
+			okAny = true
+		} else {
+			all = false
+		}
+	}
+	return okAny && all
+}
+
+// selectCaseBlocks: the blocks entered when case idx of the select was chosen
+// (SSA: index := extract sel #0; if index == idx goto B).
+func selectCaseBlocks(sel *ssa.Select, idx int) []*ssa.BasicBlock {
+	var out []*ssa.BasicBlock
+	refs := sel.Referrers()
+	if refs == nil {
+		return nil
+	}
+	for _, rf := range *refs {
+		ex, ok := rf.(*ssa.Extract)
+		if !ok || ex.Index != 0 || ex.Referrers() == nil {
+			continue
+		}
+		for _, u := range *ex.Referrers() {
+			bo, ok := u.(*ssa.BinOp)
+			if !ok || bo.Op != token.EQL || bo.Referrers() == nil {
+				continue
+			}
+			k, ok := constInt(bo.Y)
+			if !ok || int(k) != idx {
+				continue
+			}
+			for _, w := range *bo.Referrers() {
+				if iff, ok := w.(*ssa.If); ok {
+					out = append(out, iff.Block().Succs[0])
+				}
+			}
+		}
+	}
+	return out
 }
